@@ -480,15 +480,30 @@ class Scenario:
                 return True
 
         class Out(fetch.FsOutput):
-            def __init__(self, path):  # no databases, no revision file: images only
-                self.path = path
-                self.imgcount = 0
-                self.seen = {}
-
             def write_siteinfo(self, siteinfo):
                 pass
 
-        f = fetch.Fetcher(Api(), Out(self.out), pages=[], licenses=[])
+        # A real FsOutput object, initialised by its own __init__ in a scratch place (outside the watched
+        # directory) and then pointed at the watched one: whatever path-valued attributes it keeps follow.
+        # (Only its image path logic is used here; its databases and revision file are closed again.)
+        scratch_out = os.path.join(tracer.tmpdir or os.path.dirname(self.out), "fsoutput-scratch")
+        out_obj = Out(scratch_out)
+        for name_ in ("authors", "html", "imageinfo"):
+            db = getattr(out_obj, name_, None)
+            try:
+                if db is not None:
+                    db.close()
+            except Exception:  # noqa: BLE001
+                pass
+        try:
+            out_obj.revfile.close()
+        except Exception:  # noqa: BLE001
+            pass
+        for k_, v_ in list(vars(out_obj).items()):
+            if isinstance(v_, str) and (v_ == scratch_out or v_.startswith(scratch_out + os.sep)):
+                setattr(out_obj, k_, self.out + v_[len(scratch_out):])
+        os.makedirs(os.path.join(self.out, "images"), exist_ok=True)
+        f = fetch.Fetcher(Api(), out_obj, pages=[], licenses=[])
         # virtual time: gevent's own timers (sleep, Timeout, wait(timeout)) fire when the
         # discrete-event clock below reaches them; nothing waits for the real clock
         import heapq
